@@ -698,3 +698,19 @@ Fixpoint run (s : db) (h : list op) : option db :=
   end.
 
 Definition live_roots (s : db) : list N := map fst (t_layers (tr s)).
+
+(* ---- the specification of a read ------------------------------------------------- *)
+(* sem: the state designated by [root] is the fold of the diffs found along the
+   parent chain of root's own layer over the disk layer's state (buffer, frozen
+   buffer, key-value store) -- i.e. the slow walk of difflayer.go:104/130/82 from
+   the layer itself, with no lookup index involved. *)
+Definition sem_state (s : db) (root : N) (k : skey) : res val :=
+  match tget s root with
+  | None => Err EUnavail
+  | Some entry => layer_state (walk_fuel s) s entry k
+  end.
+Definition sem_node (s : db) (root : N) (k : nkey) : res val :=
+  match tget s root with
+  | None => Err EUnavail
+  | Some entry => layer_node (walk_fuel s) s entry k
+  end.
